@@ -4,7 +4,7 @@
    the expected event list of every watcher to IOEnv.OUT. *)
 EXTENDS KVStore, Json, IOUtils, SequencesExt
 
-Alphabet == {"create", "update_latest", "update_lastseq", "update_zero", "update_stale", "update_future", "update_same",
+Alphabet == {"create", "update_latest", "update_lastseq", "update_zero", "update_stale", "update_future", "update_same", "update_stale_same",
              "get", "delete", "expire", "watch", "create_j"}
 Depth == atoi(IOEnv.DEPTH)
 AbsSeqs == UNION {[1..n -> Alphabet] : n \in 1..Depth}
@@ -17,6 +17,9 @@ Concrete(s, a, n) ==
     [] a = "update_latest"  -> [op |-> "update", key |-> "k", val |-> v, exp |-> s.latest["k"]]
     \* a refresh: the bytes the key already holds, against its latest revision (a heartbeat rewrites the same payload)
     [] a = "update_same"    -> [op |-> "update", key |-> "k", val |-> (IF s.rec["k"].kind = "val" THEN s.rec["k"].val ELSE v), exp |-> LastSeq(s, "k")]
+    \* ... and the same bytes against a revision that is no longer the latest (a repeated write whose first answer was lost)
+    [] a = "update_stale_same" -> [op |-> "update", key |-> "k", val |-> (IF s.rec["k"].kind = "val" THEN s.rec["k"].val ELSE v),
+                                   exp |-> IF s.latest["k"] > 1 THEN s.latest["k"] - 1 ELSE s.seq + 3]
     [] a = "update_lastseq" -> [op |-> "update", key |-> "k", val |-> v, exp |-> LastSeq(s, "k")]
     [] a = "update_zero"    -> [op |-> "update", key |-> "k", val |-> v, exp |-> 0]
     [] a = "update_stale"   -> [op |-> "update", key |-> "k", val |-> v, exp |-> IF s.latest["k"] > 1 THEN s.latest["k"] - 1 ELSE s.seq + 3]
